@@ -28,6 +28,8 @@ INVARIANTS
 HARNESS = ["c02ap", "c01"]       # c02ap reuses spWorld / project() / spCollide of harness/c01
 ENDS_BULK = '{"Down"}'
 ENDS_FD = '{"Down", "DelPeer"}'
+STAGE = 8                        # size of the first chunk that is judged on its own
+ENOUGH = 4                       # violations after which the group stops judging
 
 
 def gen(run, g, num, seed, steps, ends=ENDS_BULK):
@@ -84,10 +86,19 @@ def run_ap(run):
         traces = run.execute(HARNESS, "pkg/server", "^TestVerifC02Ap$", allb, tag=PREFIX + mode,
                              env={"VERIF_COLLIDE": 1} if mode else None)
         k = 0
-        for (name, g, ends, n, coll), behs in part:
-            run.validate("AdjInApTrace", "AdjInApTrace_%s.cfg" % g, traces[k:k + len(behs)], behs,
-                         known_cfg="AdjInApKF_%s.cfg" % g, group=name + mode)
+        v0 = len(run.violations)
+        for j, ((name, g, ends, n, coll), behs) in enumerate(part):
+            tr = traces[k:k + len(behs)]
             k += len(behs)
+            # every rejected trace costs two more TLC runs: the first neighbour set of a mode is judged on a
+            # small first chunk, and judging stops once a handful of violations is on record
+            chunks = [(0, STAGE), (STAGE, len(tr))] if j == 0 and len(tr) > STAGE else [(0, len(tr))]
+            for a, b in chunks:
+                run.validate("AdjInApTrace", "AdjInApTrace_%s.cfg" % g, tr[a:b], behs[a:b],
+                             known_cfg="AdjInApKF_%s.cfg" % g, group=name + mode)
+                if len(run.violations) - v0 >= ENOUGH:
+                    v.log("aprx: %d violations on record, the remaining traces are not judged" % (len(run.violations) - v0))
+                    return
         key = "aprx_collide_traces" if mode else "aprx_traces"
         run.extra[key] = run.extra.get(key, 0) + len(traces)
 
